@@ -10,6 +10,7 @@ T3:  every shipped middleware class x option set (copy mode) x stacks of 1..3 on
 from __future__ import annotations
 
 import itertools
+import json
 import random
 
 from .. import core
@@ -223,6 +224,10 @@ def apply_event(bib, lib, name, factory, eid):
             shared[ids_in[i]] = shared.get(ids_in[i], 0) + 1
     ev = {"id": eid, "mw": name.split("(")[0], "inplace": False, "types": ty, "raised": raised, "changed": before != after,
           "shared": sum(shared.values()), "same_text_twice": True, "fmt_unchanged": True, "bad_template": False}
+    import hashlib
+    ev["name"] = name
+    ev["in_digest"] = hashlib.sha1(json.dumps(before, sort_keys=True, default=str).encode()).hexdigest()[:16]
+    ev["out_digest"] = hashlib.sha1(json.dumps(proj(out, bib), sort_keys=True, default=str).encode()).hexdigest()[:16] if out is not None else "raised"
     if out is not None:
         # metadata protocol (informational): which keys differ between a block and its counterpart in the result
         def ident(b):
@@ -279,7 +284,22 @@ def run(chk: core.Check):
     events, info = [], {}
     n2, n3 = (250, 150) if chk.tier == "quick" else (6000, 6000)
 
+    long_lived = {}
+    nstack = [0]
+
     def run_stack(label, mk, stack):
+        # every second stack is run with long-lived middleware objects (one per table row for the whole run): together with the
+        # clause `functional` of Trace_Middleware - equal middleware, equal input library => equal result - an object that
+        # remembers anything about its earlier work shows up
+        nstack[0] += 1
+        if nstack[0] % 2 == 0:
+            def ll(name, factory):
+                def get():
+                    if name not in long_lived:
+                        long_lived[name] = factory()
+                    return long_lived[name]
+                return get
+            stack = [(name, ll(name, factory)) for name, factory in stack]
         lib = mk()
         lib0, ids0, proj0 = lib, mutable_ids(lib, bib), (proj(lib, bib) if len(stack) > 1 else None)
         for pos, (name, factory) in enumerate(stack):
@@ -364,9 +384,24 @@ def run(chk: core.Check):
                            "changed": proj(lib, bib) != before or set(mutable_ids(lib, bib)) != set(ids_in), "shared": 0, "same_text_twice": same, "bad_template": template is not None,
                            "fmt_unchanged": fstate == (fmt.indent, fmt.value_column, fmt.block_separator, fmt.trailing_comma, fmt.parsing_failed_comment)})
             info[eid] = {"library": label, "stack": [f"write_string(value_column={vc}, parsing_failed_comment={template!r}, prepend_middleware={prepend})"], "name": "write_string", "exc": exc, "shared": {}}
-    verdict = core.validate_traces("Trace_Middleware", events, shards=8)
+    # (events with the same middleware row and input digest must meet in one shard for the clause `functional`: the shards
+    # are contiguous slices of the list sorted by that key; write_string events have no digest and sort first)
+    ordered = sorted(events, key=lambda e: (e.get("name", ""), e.get("in_digest", ""), e["id"]))
+    verdict = core.validate_traces("Trace_Middleware", ordered, shards=8)
     for r in verdict.results:
         chk.add_tlc(r, "Trace_Middleware shard", count_states=False)
+    # binding self-test of the whole-trace clause: two recorded events with the same key, one result digest corrupted
+    twins = {}
+    for e in ordered:
+        if "in_digest" in e and e["out_digest"] != "raised":
+            twins.setdefault((e["name"], e["in_digest"]), []).append(e)
+    pair = next((v for v in twins.values() if len(v) >= 2), None)
+    if pair is None:
+        raise core.MachineryError("C07: no two events share middleware and input - the clause `functional` is vacuous")
+    forged = [dict(pair[0], id=0), dict(pair[1], id=1, out_digest="0000000000000000")]
+    if not any(r["clause"] == "functional" for r in core.validate_traces("Trace_Middleware", forged, shards=1).rejects):
+        raise core.MachineryError("Trace_Middleware accepted a forged pair of events (clause `functional` does not bind)")
+    chk.extra["events_sharing_middleware_and_input"] = sum(len(v) for v in twins.values() if len(v) >= 2)
     notes = [rj for rj in verdict.rejects if rj["clause"].startswith("note:")]
     chk.extra["metadata_protocol_differences(informational)"] = len(notes)
     for rj in notes[:5]:
